@@ -4,14 +4,20 @@
   * `GraphGame`, `polish`, `GraphGame.ofMatrix`, `graphValue`  : `GraphCooperativeGame` (`_polish_graph_matrix` at
     construction; value = Σ of `M[i,j]` over `itertools.combinations(players, 2)`, left to right from 0.0)
   * `normInfo`, `normInfoGraph`       : `_get_norminfo` (singleton values; grand − `np.sum(singletons)`)
-  * `subSingleton`, `normalizeIcg`    : `_normalize_icg`, in the in-place order of the code
-  * `closedW`, `normVal`              : the closed form `w c = v c − Σ_{i∈c} v{i}` and `w / w(N)` (unless `w(N) = 0`)
+  * `absN`, `isAdditive`             : `bool(np.isclose(surplus + np.sum(sv), np.sum(sv), rtol=rtol, atol=0))`
+  * `subSingleton`, `normalizeIcg`    : `_normalize_icg`, in the in-place order of the code; the relative tolerance
+                                        (the code's literal `1e-9`, `defaultRtol`) is a parameter
+  * `closedW`, `closedAdditive`, `normVal` : the closed form `w c = v c − Σ_{i∈c} v{i}` and `w / w(N)`
+                                        (unless `w(N) = 0` or `|w(N)| ≤ rtol·|Σ_i v{i}|`)
   * `normalizeGraph`                  : `_normalize_graph_game`
   * `denormalize`, `denormalizeGraph` : `denormalize_game`, `_denormalize_graph_game`
   * `normalizeGame`, `normalizeGameGraph` : `normalize_game` (info is gathered BEFORE normalising)
 
-  Division happens only behind the code's own guard `if not grand_coalition_value: return`; the guard is
-  `if g = 0` here (`not x` of a float is `x == 0.0`), so no `x / 0` is ever evaluated.
+  Division happens only behind the code's own guard `if not grand_coalition_value or additive: return`; the
+  guard is `if g = 0 ∨ additive` here (`not x` of a float is `x == 0.0`), so no `x / 0` is ever evaluated.
+  `additive` is computed from `_get_norminfo(game)` BEFORE the subtraction loop (so a missing singleton or grand
+  value raises there, before any row is rewritten; an unknown other coalition still raises inside the loop —
+  both are ValueError, and `normalize_game` has called `_get_norminfo` once already).
   `get_value` / `get_values` / `set_value` keep their `Except` outcomes from `ICG.Model.Table`
   (an unknown coalition raises ValueError — "Must not be minimal" in the docstring of `normalize_game`).
 -/
@@ -69,6 +75,20 @@ def normInfoGraph [Add α] [Sub α] [Zero α] (g : GraphGame α) : α × List α
   let sv := (singletons g.n).map (graphValue g)
   (graphValue g (grand g.n) - listSum sv, sv)
 
+/-- `np.abs`, from core classes -/
+def absN [Max α] [Neg α] (x : α) : α := max x (-x)
+
+/-- `bool(np.isclose(surplus + np.sum(singleton_values), np.sum(singleton_values), rtol=rtol, atol=0))` on the
+    pair returned by `_get_norminfo`; `np.isclose(a, b, rtol, atol)` on finite numbers is
+    `|a − b| <= atol + rtol * |b|`, here with `atol = 0`.  (In exact arithmetic `a − b` is the surplus.) -/
+def isAdditive [Add α] [Sub α] [Mul α] [Neg α] [Max α] [Zero α] [LE α] [DecidableLE α]
+    (rtol : α) (info : α × List α) : Bool :=
+  let s := listSum info.2
+  decide (absN ((info.1 + s) - s) ≤ rtol * absN s)
+
+/-- the exact value of the Python float literal `1e-9` (`Fraction(1e-9)`; the denominator is 2^82) -/
+def defaultRtol : Rat := (4835703278458517 : Rat) / 4835703278458516698824704
+
 /-- one pass of the outer loop of `_normalize_icg`: read the singleton's CURRENT value once, then for every
     coalition that meets it (`filter(lambda x: x & singleton, all_coalitions)`, id order; a `Coalition` is
     truthy iff non-empty) `set_value(get_value(c) − singleton_value, c)`. The singleton's own row becomes 0. -/
@@ -84,26 +104,43 @@ def divColumns [Div α] (t : Table α) (g : α) : Table α :=
   { t with lo := fun c => if c < t.rows then t.lo c / g else t.lo c,
            hi := fun c => if c < t.rows then t.hi c / g else t.hi c }
 
-/-- `_normalize_icg`. -/
-def normalizeIcg [Sub α] [Div α] [Zero α] [DecidableEq α] (t : Table α) : Except Err (Table α) := do
+section icg
+variable [Add α] [Sub α] [Mul α] [Div α] [Neg α] [Max α] [Zero α] [LE α] [DecidableLE α] [DecidableEq α]
+
+/-- `_normalize_icg` (`rtol` is the literal `1e-9` of the code):
+    `surplus, singleton_values = _get_norminfo(game)`; `additive = bool(np.isclose(…))`; the singleton-by-singleton
+    subtraction; `grand_coalition_value = game.get_value(grand)`;
+    `if not grand_coalition_value or additive: return`; otherwise both bound columns are divided. -/
+def normalizeIcg (rtol : α) (t : Table α) : Except Err (Table α) := do
+  let info ← normInfo t
+  let additive := isAdditive rtol info
   let t1 ← (List.range t.n).foldlM subSingleton t
   let g ← t1.getValue (grand t1.n)
-  if g = 0 then pure t1 else pure (divColumns t1 g)
+  if g = 0 ∨ additive = true then pure t1 else pure (divColumns t1 g)
 
 /-- `normalize_game` on a table: the info is gathered first, from the un-normalised game. -/
-def normalizeGame [Add α] [Sub α] [Div α] [Zero α] [DecidableEq α] (t : Table α) :
-    Except Err ((α × List α) × Table α) := do
+def normalizeGame (rtol : α) (t : Table α) : Except Err ((α × List α) × Table α) := do
   let info ← normInfo t
-  let t' ← normalizeIcg t
+  let t' ← normalizeIcg rtol t
   pure (info, t')
+
+end icg
 
 /-- closed form of the subtraction phase: `w c = v c − Σ_{i ∈ c} v{i}` -/
 def closedW [Add α] [Sub α] [Zero α] (v : Nat → α) (c : Nat) : α :=
   v c - listSum ((players c).map (fun i => v (singleton i)))
 
-/-- closed form of the whole normalisation -/
-def normVal [Add α] [Sub α] [Div α] [Zero α] [DecidableEq α] (n : Nat) (v : Nat → α) (c : Nat) : α :=
-  if closedW v (grand n) = 0 then closedW v c else closedW v c / closedW v (grand n)
+/-- closed form of the guard: `|w(N)| ≤ rtol · |Σ_{i<n} v{i}|` -/
+def closedAdditive [Add α] [Sub α] [Mul α] [Neg α] [Max α] [Zero α] [LE α] [DecidableLE α]
+    (n : Nat) (rtol : α) (v : Nat → α) : Bool :=
+  decide (absN (closedW v (grand n)) ≤ rtol * absN (listSum ((List.range n).map (fun i => v (singleton i)))))
+
+/-- closed form of the whole normalisation: `w` when `w(N) = 0` or the game is additive up to `rtol`,
+    `w / w(N)` otherwise -/
+def normVal [Add α] [Sub α] [Mul α] [Div α] [Neg α] [Max α] [Zero α] [LE α] [DecidableLE α] [DecidableEq α]
+    (n : Nat) (rtol : α) (v : Nat → α) (c : Nat) : α :=
+  if closedW v (grand n) = 0 ∨ closedAdditive n rtol v = true then closedW v c
+  else closedW v c / closedW v (grand n)
 
 /-- `_normalize_graph_game`: nothing when the grand value is 0; otherwise zero `M[j, i]` for `j ≥ i`, then
     divide the whole matrix. -/
